@@ -4,10 +4,12 @@ seeded from /repo/testkeys (corpus/C09/<target>/, built by make_corpus.py); mini
 finding live in corpus/C09/<target>/regress/ and are replayed on every run."""
 
 
-def T(name, src, quick_secs, max_len=8192, timeout=10, **kw):
+def T(name, src, quick_secs, rate, max_len=8192, timeout=10, **kw):
     d = dict(name=name, src=['props/C09/' + src], engine='libfuzzer', corpus=['corpus/C09/' + name], max_len=max_len,
              timeout=timeout, replay_timeout=timeout + 15, hang_is_violation=True, fuzz_args=['-close_fd_mask=1', '-len_control=%d' % (0 if max_len > 8192 else 50)],
-             quick=dict(secs=quick_secs, shards=16), thorough=dict(secs=180, shards=16))
+             # quick tier: bounded by executions (rate = execs/s of one worker on an idle core x nominal seconds); the time
+             # limit is twice the nominal duration so that a loaded machine still gets most of the executions.
+             quick=dict(secs=2 * quick_secs, runs=rate * quick_secs, shards=16), thorough=dict(secs=180, shards=16))
     # note: the per-case alarm armed by vf.h (VF_TARGET timeout) must be >= libFuzzer's -timeout, see the targets
     d.update(kw)
     return d
@@ -22,16 +24,16 @@ PROP = dict(
     assumptions=['key/response structures are zero-initialised before parsing, as every in-tree caller does',
                  'input buffers are exact-size heap copies without a terminating NUL (the APIs take pointer+length)'],
     targets=[
-        T('c09_x509_cert', 'x509_cert.cc', 10, max_len=70000),   # > 64 KiB: 16-bit psSize_t wrap with the bytes really present
-        T('c09_x509_pem_bundle', 'x509_pem_bundle.cc', 7),
-        T('c09_crl', 'crl.cc', 8, max_len=70000),
-        T('c09_ocsp_response', 'ocsp_response.cc', 8, max_len=70000),
-        T('c09_pkcs8', 'pkcs8.cc', 6, timeout=40),
-        T('c09_pkcs12', 'pkcs12.cc', 8, timeout=40),
-        T('c09_privkey_any', 'privkey_any.cc', 7, timeout=40),
-        T('c09_pubkey_any', 'pubkey_any.cc', 7),
-        T('c09_dh_params', 'dh_params.cc', 4),
-        T('c09_pem_decode', 'pem_decode.cc', 6),
-        T('c09_load_keys_mem', 'load_keys_mem.cc', 8, timeout=40),
+        T('c09_x509_cert', 'x509_cert.cc', 10, 350, max_len=70000),   # > 64 KiB: 16-bit psSize_t wrap with the bytes really present
+        T('c09_x509_pem_bundle', 'x509_pem_bundle.cc', 7, 130),
+        T('c09_crl', 'crl.cc', 8, 320, max_len=70000),
+        T('c09_ocsp_response', 'ocsp_response.cc', 8, 200, max_len=70000),
+        T('c09_pkcs8', 'pkcs8.cc', 6, 430, timeout=60, wraps=['psSha1Final']),
+        T('c09_pkcs12', 'pkcs12.cc', 8, 220, timeout=60, wraps=['psSha1Final']),
+        T('c09_privkey_any', 'privkey_any.cc', 7, 500, timeout=60, wraps=['psSha1Final']),
+        T('c09_pubkey_any', 'pubkey_any.cc', 7, 1100),
+        T('c09_dh_params', 'dh_params.cc', 4, 2700),
+        T('c09_pem_decode', 'pem_decode.cc', 6, 2000),
+        T('c09_load_keys_mem', 'load_keys_mem.cc', 8, 560, timeout=60, wraps=['psSha1Final']),
     ],
 )
